@@ -28,7 +28,7 @@ STUB_LINES = (
 class Harness:
     def __init__(self, name, crate="hk", features=(), tiers=("quick", "thorough"), covers=0,
                  timeout=900, mem_gb=8, what="", bounds="", sched=False, extra=(), expect_stubs=True,
-                 known=None, unwindset=None, cbmc_args=()):
+                 known=None, unwindset=None, cbmc_args=(), concrete=False):
         self.name = name            # module::function, used with --exact
         self.crate = crate          # hk (plain pal crate) or hs (instrumented drop-in)
         self.features = tuple(features)
@@ -46,6 +46,7 @@ class Harness:
         # assertion of that loop stays on, so a too-small bound is reported (exit 2), never hidden
         self.unwindset = dict(unwindset or {})
         self.cbmc_args = tuple(cbmc_args)   # extra CBMC options (e.g. --max-field-sensitivity-array-size)
+        self.concrete = concrete            # the harness has no kani::any() input: its native run is the replay
 
     @property
     def short(self):
